@@ -4,6 +4,8 @@
 #pragma once
 #include <csetjmp>
 #include <cstdio>
+#include <algorithm>
+#include <cmath>
 #include <cstring>
 #include <functional>
 #include <map>
